@@ -131,7 +131,7 @@ def design(ctx, embeds):
         for inv in invs[:ctx.pick(1, len(invs))]:
             name = "dev%d" % len(ctx.tlc_runs)
             cfg = "SPECIFICATION Spec\n" + consts(1, n, n, 4, **cs) + "VIEW View\nINVARIANT " + inv + "\n"
-            r = ctx.tlc(name, MODS[:2], mc_module(name, "Spatial", cx, cy), cfg, workers=2, timeout=300, expect_violation=True)
+            r = ctx.tlc(name, MODS[:2], mc_module(name, "Spatial", cx, cy), cfg, workers=1, timeout=600, expect_violation=True)
             if r["violated"] != inv:
                 raise common.Infra("deviation %s does not violate %s (TLC: %s): the grid cannot tell it from the design (vacuous)"
                                    % (dev, inv, r["violated"]))
@@ -140,7 +140,7 @@ def design(ctx, embeds):
     name = "nearest%d" % len(ctx.tlc_runs)
     cfg = "SPECIFICATION Spec\n" + consts(1, n, n, 4, ObjRound="nearest", QryRound="nearest", DelRound="nearest") + \
           "VIEW View\nINVARIANT " + INVS + "\n"
-    r = ctx.tlc(name, MODS[:2], mc_module(name, "Spatial", cx, cy), cfg, workers=2, timeout=300)
+    r = ctx.tlc(name, MODS[:2], mc_module(name, "Spatial", cx, cy), cfg, workers=1, timeout=600)
     if not r["ok"]:
         raise common.Infra("nearest rounding on both sides violates %s" % r["violated"])
     ctx.log("TLC deviations refuted: %s" % "; ".join("%s -> %s" % (d, "/".join(v)) for d, v in refuted.items()))
